@@ -15,6 +15,12 @@ CLAIMS = {
         'note': 'Trusted: TLC, harness projection (1/640 unit quantisation), derived curves closed only by self-touching of an open root are excluded from histories, tolerance tiny so only zero travel exercises the tolerance guard. airfoil helper consumers are not driven here.',
         'technique': TECH,
     },
+    'C05': {
+        'text': 'TLC enumerates resampling by count (2..6/9), by spacing and by maximum spacing (spacings below, dividing, equal to and above the length) of curated open and closed lattice curves in 2D and 3D at power-of-two scales from 2^-10 to 2^7 (so total lengths from 1e-3 to 1e3), checks the spacing arithmetic laws, and enumerates simplification (tolerances 0, 1/4, 1, 2 units; open and force-closed; collinear runs, doubling back, rings) and gap filling of every 3-point sequence on a 3x3/4x4 lattice plus curated ones; every case runs through the library and TLC judges: each result vertex is the exact rational point at the prescribed arc length (count; centred equal margins; even spacing not above the maximum with a minimal count), success for every length, kept subsequence with both ends and closedness, every discarded vertex within tolerance of the simplified polyline (exact rational point-segment distance), originals kept in order with no gap above the maximum and inserts on their segment. Seeded random (length, count/spacing) pairs up to 64 samples probe rounding of the last position.',
+        'design_ref': 'DESIGN.md section 6 C05',
+        'note': 'Trusted: TLC, harness projection (2^-14 unit). Coincident consecutive samples on self-touching curves may merge; a single-sample result may be an error. The camber/series consumers are not driven here. Four defects found by this check were repaired (fix: commits, see known_findings.json).',
+        'technique': TECH,
+    },
     'C18': {
         'text': 'TLC enumerates every lattice angle k*TAU/16 (|k|<=40/64, each +-1 ulp), every pair for directed angles, all pairs of lattice vectors in [-2,2]^2, every (start, extent) angular interval on Z_16 x -18..18 against 72 test angles, the full intersects table and all scalar intervals over {-inf,-2..2,+inf}; checks the arc/interval algebra laws on the spec; every case is executed by the real library and TLC judges each observation against the L1 set semantics (results free only within ANGLE_TOL of arc ends). Random finite angles up to 1e6 are judged through sin/cos agreement. This is the right level because the property is a finite case analysis around wrap points that the lattice hits exactly.',
         'design_ref': 'DESIGN.md section 6 C18',
